@@ -91,23 +91,5 @@ def _fold(rep, other, tag):
 
 
 def replay(path):
-    import ast
-
-    import fickling.fickle as fk
-
-    from .. import refvm
-    from ..stubworld import run_source
-
-    case = json.load(open(path))["case"]
-    data = bytes.fromhex(case["bytes"]["hex"])
-    vm = refvm.RefVM(data)
-    vm.run()
-    print("VM events:", refvm.events(vm.world))
-    src = ast.unparse(fk.Pickled.load(data).ast)
-    print("decompiled:\n" + src)
-    try:
-        w, ns = run_source(src)
-        print("decompiled events:", refvm.events(w))
-    except Exception as e:  # noqa: BLE001
-        print("exec failed:", type(e).__name__, e)
-    return 0
+    register_ext()
+    return e1.replay_terminal(PROP, path, [oracles.c03_events])
